@@ -70,12 +70,12 @@ CHECKS = {
  "C19": dict(
    cat="model_checking", design="DESIGN.md section 6 C19",
    text="Product traces: the same seeded history (KV with TTL/deletes/failed transactions/merges in both RAM index modes; all structures in HintKeyValAndRAMIdxMode; reopens and shadow reopens) is executed under every combination of RWMode x StartFileLoadingMode x SyncEnable (x index mode): 16 resp. 8 configurations. Every event carries one digest of (operation, arguments, results) per configuration; TLC requires all digests to be equal and the first configuration's event to be a step of Nuts.tla, whose actions have no option-dependent behaviour.",
-   note="Digests are computed by the driver; equality is judged by TLC. SPop is excluded from product histories because its choice is legitimately nondeterministic. Sparse mode is not yet part of the product.",
+   note="Digests are computed by the driver; equality is judged by TLC. SPop is excluded from product histories because its choice is legitimately nondeterministic. Sparse mode takes part in single-bucket key/value histories (24 configurations); a scan that finds nothing may report it as an error or as an empty result (one observation).",
    technique="TLA+ trace validation with TLC of product traces over all storage-option combinations"),
  "C03": dict(
    cat="model_checking", design="DESIGN.md section 6 C03",
    text="Specification -> code, exhaustive: TLC enumerates every status assignment absent/live/deleted/expired of a key universe with nested prefixes (a, ab, abc, b [, bc]: 256 states quick, 1024 thorough) and, for each, every PrefixScan(prefix, offset, limit) with prefix in {'', a, ab, b, c}, offset 0..n+1, limit -1..n+1 and every PrefixSearchScan(prefix, regexp, 0, limit) over 4 regular expressions (89 600 queries quick); the replayer builds each state in a fresh bucket (puts, deletes, expired PutWithTimestamp) in HintKeyValAndRAMIdxMode and HintKeyAndRAMIdxMode and runs the queries; TLC validates every recorded page against KVSpec!PageOK (live keys with the prefix, ascending, after skipping offset, at most limit) on the state rebuilt from the recorded writes. Random histories with paged scans over a 41-key universe (several B+ tree leaves, rotations, reopen) are validated the same way.",
-   note="Trusts TLC and the recording wrapper; the regular-expression predicate is computed with Go's regexp and passed as a match set. Sparse index mode is not yet covered by this check. For limit 0 the statement fixes no count and any prefix of the remaining keys is admitted.",
+   note="Trusts TLC and the recording wrapper; the regular-expression predicate is computed with Go's regexp and passed as a match set. Sparse index mode: the same enumeration is replayed with 128-byte segments (keys spread over one to three segments) and the `page` family runs in it too. For limit 0 the statement fixes no count and any prefix of the remaining keys is admitted.",
    technique="TLC-enumerated (state, query) pairs replayed into the code + TLA+ trace validation of the recordings"),
  "C20": dict(
    cat="model_checking", design="DESIGN.md section 6 C20",
@@ -89,29 +89,9 @@ CHECKS = {
    technique="TLC-enumerated combinations (ModeCompat.tla) replayed into the code + TLA+ trace validation"),
  "C02": dict(
    cat="model_checking", design="DESIGN.md section 6 C02",
-   text="Trace validation of single-bucket Put/PutWithTimestamp/Delete histories in HintBPTSparseIdxMode (segments of 128-512 bytes so that most keys live in sealed segments reached through the on-disk B+ tree and root-index files; FileIO and MMap; Close/Open every ~12 transactions): after every transaction Get of the key universe and, at intervals and after every reopen, a full observation (GetAll) are recorded, and TLC accepts them only if they equal the ordered-map-with-TTL model (Nuts.tla/KVSpec.tla). RangeScan and PrefixScan are executed and recorded too, but on the pinned tree they deviate (known finding F-C02-1) and are not constrained.",
-   note="Weaker than the statement: only Get and GetAll are judged in sparse mode; RangeScan/PrefixScan are a recorded known finding whose deviant rule admits any result. Multi-bucket sparse histories, failed commits in sparse mode and sparse crash images showed further defects in probes (DESIGN.md) and are outside this check. Trusts TLC and the recording wrapper.",
+   text="Trace validation of single-bucket Put/PutWithTimestamp/Delete histories in HintBPTSparseIdxMode (segments of 128-512 bytes so that most keys live in sealed segments reached through the on-disk B+ tree and root-index files; FileIO and MMap; Close/Open every ~12 transactions; a 41-key universe with paged scans in the `page` family): after every transaction Get of the key universe, GetAll, RangeScans with bounds straddling stored keys, PrefixScans and PrefixSearchScans are recorded, plus full observations after every reopen, and TLC accepts them only if they equal the ordered-map-with-TTL model (Nuts.tla/KVSpec.tla), exactly as for the RAM modes in C01. (The three scan defects the first version of this check recorded as a known finding - overlap predicate, ScanNoLimit never reading sealed segments, per-segment paging - are repaired; see known_findings.json, fixed F-C02-1.)",
+   note="Single-bucket histories only, as the statement says. Multi-bucket sparse histories, failed commits in sparse mode and sparse crash images showed further defects in probes (DESIGN.md 11.3) and are outside this check. Trusts TLC and the recording wrapper.",
    technique="TLA+ trace validation with TLC (code -> spec) + bounded model checking of Nuts.tla"),
- "C14": dict(
-   cat="model_checking", design="DESIGN.md section 6 C14",
-   text="(1) Lock.tla/LockCore.tla - goroutines, one writer-preferring RWMutex per database, two-step transactions, a Merge process, an Eraser-style lockset monitor - is model-checked (2 databases, 2 writers + 2 readers x 2-3 transactions + merger; 1 database with a Backup reader): Mutex, SnapshotStable, LockSet, NoLostUpdate, termination; the two repaired races (package-level queue, in-place sort of the shared root-index slice) are shown to be LockSet counterexamples. (2) Code -> spec: 4-16 goroutines run mixed View/Update transactions on 1-3 databases in every index mode with yields injected at the hook gates, race-instrumented. The lock hook (called under db.mu) counts writer acquisitions, which places every transaction in a serial order per database; that order is written out and TLC validates it as a sequential history of Nuts.tla: every read of a read-only transaction is taken twice and both must equal the same snapshot, every value is the last committed one, and end/begin ticks must respect real time. (3) The raw stream of lock and shared-access events is validated by LockTrace.tla against the RWMutex guards and the lockset monitor; race-detector reports are appended to that stream as events no action admits. A run that does not finish within the watchdog period is recorded as a deadlock event.",
-   note="Exhaustive interleavings only in the model; on the code the schedules are those the Go scheduler produces under injected yields. Trusts TLC, the hooks (verifLock is emitted while the lock is held) and the recording wrapper. Lists/sets/sorted sets are not part of the concurrent histories.",
-   technique="bounded model checking of Lock.tla + TLA+ trace validation of linearised concurrent histories (NutsTrace) and of the lock/access event stream (LockTrace), race detector as an event source"),
- "C17": dict(
-   cat="model_checking", design="DESIGN.md section 6 C17",
-   text="As C14 with a goroutine that calls Merge in a loop next to 3-8 reading and writing goroutines (both RAM index modes, race-instrumented), plus a gate-forced schedule (verifGate) in which an update commits between Merge's scan of a segment and its rewrite. TLC validates the linearised results and the final/reopened observation against the merge-free serial history, and the lock/access stream plus race reports against LockCore. Lock.tla is model-checked with Merge as one write transaction (holds) and code-shaped (switch MergeUnlocked: TLC exhibits both the lockset violation and the lost update). On the pinned tree both happen: they are the known findings F-C17-1 and F-C17-2; any other rejection is a VIOLATION.",
-   note="Because Merge is unsynchronised on the pinned tree, a history is judged only up to its first read that the merge race changed; races whose stacks do not involve Merge are not excused.",
-   technique="bounded model checking of Lock.tla + TLA+ trace validation of linearised concurrent histories and of the lock/access event stream, gate-forced schedule, race detector as an event source"),
- "C18": dict(
-   cat="model_checking", design="DESIGN.md section 6 C18",
-   text="A goroutine calls Backup(dir) in a loop while 3-8 goroutines write and read (both RAM index modes and sparse mode, FileIO and MMap, 1-2 databases, race-instrumented). A gate hook inside Backup's read transaction records how many writers had acquired the lock when the copy started; the copy is opened with the same options and fully observed; the backup event is placed at that point of the linearised history and TLC (NutsTrace!TrCopyObs) accepts it iff Open succeeded and the observation equals Replay(log) there - the state committed when the backup's read transaction started. Lock.tla (Backup as a two-step reader, SnapshotStable) is model-checked.",
-   note="Trusts TLC, the hooks and the recording wrapper. Backups taken while Merge runs are not generated (Merge is unsynchronised, C17).",
-   technique="TLA+ trace validation of linearised concurrent histories with Backup events + bounded model checking of Lock.tla"),
- "C21": dict(
-   cat="model_checking", design="DESIGN.md section 6 C21",
-   text="Specification -> code, exhaustive over the enumerated domain: Codec.tla enumerates record templates (data entries: every combination of bucket/key/value size in {0,1,7} plus flag, status, structure code, timestamp, TTL and tx id varied over boundary values one - thorough: two - at a time; sparse root-index records; bucket metadata) and, for each, the unmutated record, every single-bit flip of its stored bytes and every truncation (22 255 reads quick). The replayer builds each record with the library's encoder, stores it through the library's writer (DataFile with FileIO and MMap, BPTreeRootIdx.Persistence), alters the stored bytes, reads it back through DataFile.ReadAt / ReadBPTreeRootIdxAt / ReadBucketMeta and records the fields written and the fields read. TLC (Codec!Admitted) accepts: unmutated -> a record with exactly the written fields; mutated -> an error, 'absent', or a record with exactly the written fields.",
-   note="The family's weak spot (DESIGN.md): TLA+ contributes the complete enumeration and the acceptance rule, not the byte layout or CRC arithmetic. The quick tier skips flips in the two high-order bytes of size fields (each makes the reader allocate up to 4 GB); the thorough tier includes them. Multi-bit corruption is not enumerated.",
-   technique="TLC-enumerated (template, mutation) pairs (Codec.tla) replayed into the code + TLA+ trace validation of written vs. read fields"),
  "C01": dict(
    cat="model_checking", design="DESIGN.md section 6 C01",
    text="Trace validation: seeded random KV histories (multi-bucket, TTL on both sides of expiry, segments of 128-512 bytes so nearly every transaction rotates, reopen) are executed on the real library in HintKeyValAndRAMIdxMode and HintKeyAndRAMIdxMode x FileIO and MMap, every call is recorded, and TLC accepts the trace only if every Get/GetAll/RangeScan/PrefixScan/PrefixSearchScan result equals the KVSpec ordered-map-with-TTL result on the specification state (Nuts.tla). The API-grain design is model-checked exhaustively for a small universe (NutsMC_kv.cfg).",
